@@ -36,3 +36,19 @@ def has (tc : TC) (k : Bytes) : Bool := (alookup k tc).isSome
 def remove (tc : TC) (k : Bytes) : TC := aerase k tc
 
 end SV.TimeCache
+
+namespace SV.TimeCache
+
+/-- Two exact models bracketing the unknown clock readings: every operation is known to have read the clock somewhere
+    in `[lo, hi]`.  `must` stamps entries with the EARLIEST possible reading and sweeps at the LATEST (a key is in `must`
+    only if it is certainly present); `may` does the opposite (a key is in `may` if it is possibly present). -/
+structure I where
+  must : TC
+  may : TC
+
+def I.add (i : I) (k v : Bytes) (span lo hi : Nat) : I := ⟨TimeCache.add i.must k v span lo, TimeCache.add i.may k v span hi⟩
+def I.upsert (i : I) (k v : Bytes) (span lo hi : Nat) : I := ⟨TimeCache.upsert i.must k v span lo, TimeCache.upsert i.may k v span hi⟩
+def I.sweep (i : I) (lo hi : Nat) : I := ⟨TimeCache.sweep i.must hi, TimeCache.sweep i.may lo⟩
+def I.remove (i : I) (k : Bytes) : I := ⟨TimeCache.remove i.must k, TimeCache.remove i.may k⟩
+
+end SV.TimeCache
